@@ -25,7 +25,7 @@ Definition all_kinds : list kind := [K1; K2; K3; KM].
 Definition bare (s : smap) (p : path) : bool :=
   forallb (fun k => match sget s p k with None => true | Some _ => false end) all_kinds.
 
-(* `remove` returns whether the object was destroyed: in the flat view, whether nothing is left there *)
+(* the flag returned by a successful `remove` is left open (RDone) *)
 Definition spec_step (s : smap) (o : op) : smap * sres :=
   match o with
   | At p k id =>
@@ -36,7 +36,7 @@ Definition spec_step (s : smap) (o : op) : smap * sres :=
   | Rm p k =>
       match sget s p k with
       | None => (s, RErr)
-      | Some _ => let s' := sdel s p k in (s', RBool (bare s' p))
+      | Some _ => (sdel s p k, RDone)
       end
   end.
 
